@@ -15,6 +15,8 @@
   * `so3_d2rExp_hasDerivAt`, `so3_d2rExpinv_hasDerivAt`, `se2_d2rExp_hasDerivAt`,
     `se2_d2rExpinv_hasDerivAt`: all 27 entries each, closed-form branch;
   * series-branch coefficients are consistent (`dA`, `dB` are the derivatives of the series `A`, `B`);
+  * `so3_d2r_taylor_bound`, `se2_d2r_taylor_bound`: series-branch Hessians within explicit bounds of
+    the closed-form formula;
   * Bundle: `bundle_d2rExp_hasDerivAt`, `bundle_d2rExpinv_hasDerivAt` lift the Hessian statement from
     the parts to every Bundle composition;
   * `d2l_def`, `d2r_rminus_def`, `d2r_rminus_squarednorm_def`.
@@ -29,6 +31,7 @@ import SmoothProofs.C05SE3
 import SmoothProofs.C05SE3H
 import SmoothProofs.C05SE3Hinv
 import SmoothProofs.C05Bundle
+import SmoothProofs.C05TaylorH
 
 open Lin Scalar
 
@@ -246,6 +249,62 @@ theorem se2_ad_sq (a : Vec ℝ 3) :
     mmul (SE2.ad a) (SE2.ad a)
       = mat3 (-(a 2 * a 2)) 0 (a 2 * a 0) 0 (-(a 2 * a 2)) (a 2 * a 1) 0 0 0 :=
   C05SE2.ad_sq a
+
+/-! ### `d2r_taylor_bound`: series-branch Hessians vs the closed-form formula -/
+
+/-- SO3 `d2r_exp`, series branch (`0 < θ² < eps2`): every entry is within
+    `θ⁴/700·|E_k| + θ⁴/5000·|E_kM+ME_k| + θ²/170·|a_k M| + θ²/1000·|a_k M²|` (entries `(j,r)`) of the
+    closed-branch formula `so3HessClosed` evaluated at the same `a` (which is the true derivative of the
+    closed-form Jacobian; `so3HessClosed_eq` + `so3_d2rExp_hasDerivAt`). With `θ < 1e-4`, `|a_k| ≤ θ`:
+    ≤ about `1e-13` absolute. -/
+theorem so3_d2r_taylor_bound (a : Vec ℝ 3) (h0 : 0 < sqNorm a) (h1 : sqNorm a < Scalar.eps2)
+    (j r k : Fin 3) :
+    |(SO3.d2r_exp a) r ⟨3 * j.val + k.val, by have := j.isLt; have := k.isLt; omega⟩
+        - C05TaylorH.so3HessClosed a j r k|
+      ≤ sqNorm a ^ 2 / 700 * |(SO3.hat (C05SO3.e k)) j r| + sqNorm a ^ 2 / 5000 * |(C05SO3.EM a k) j r|
+        + sqNorm a / 170 * |a k * (SO3.hat a) j r|
+        + sqNorm a / 1000 * |a k * (mmul (SO3.hat a) (SO3.hat a)) j r| :=
+  C05TaylorH.so3_d2rExp_series_bound a h0 h1 j r k
+
+theorem so3HessClosed_eq (a : Vec ℝ 3) (h : Scalar.eps2 < sqNorm a) (j r k : Fin 3) :
+    (SO3.d2r_exp a) r ⟨3 * j.val + k.val, by have := j.isLt; have := k.isLt; omega⟩
+      = C05TaylorH.so3HessClosed a j r k :=
+  C05TaylorH.so3HessClosed_eq a h j r k
+
+/-- SE2 `d2r_exp`, series branch (`θ = a_2 ≠ 0`, `θ² < eps2`). This bound closes with the FIXED
+    coefficient `−θ/12`; with the former `−θ/48` the third term would be `θ/16`, not `|θ|³/170`. -/
+theorem se2_d2r_taylor_bound (a : Vec ℝ 3) (h0 : a 2 ≠ 0) (h1 : a 2 * a 2 < Scalar.eps2)
+    (j r k : Fin 3) :
+    |(SE2.d2r_exp a) r ⟨3 * j.val + k.val, by have := j.isLt; have := k.isLt; omega⟩
+        - C05TaylorH.se2HessClosed a j r k|
+      ≤ (a 2) ^ 4 / 700 * |(SE2.ad (C05SO3.e k)) j r| + (a 2) ^ 4 / 5000 * |(C05SE2.EM a k) j r|
+        + |a 2| ^ 3 / 170 * |(C05SO3.e k) 2 * (SE2.ad a) j r|
+        + |a 2| ^ 3 / 1000 * |(C05SO3.e k) 2 * (mmul (SE2.ad a) (SE2.ad a)) j r| :=
+  C05TaylorH.se2_d2rExp_series_bound a h0 h1 j r k
+
+theorem se2HessClosed_eq (a : Vec ℝ 3) (h : Scalar.eps2 < a 2 * a 2) (j r k : Fin 3) :
+    (SE2.d2r_exp a) r ⟨3 * j.val + k.val, by have := j.isLt; have := k.isLt; omega⟩
+      = C05TaylorH.se2HessClosed a j r k :=
+  C05TaylorH.se2HessClosed_eq a h j r k
+
+/-- the four coefficient bounds behind both (`A, B, dA/θ, dB/θ`; `0 < θ ≤ 1/10`) -/
+theorem d2r_coefficient_taylor (θ : ℝ) (h0 : 0 < θ) (h1 : θ ≤ 1 / 10) :
+    |(1 - Real.cos θ) / θ ^ 2 - (1 / 2 - θ ^ 2 / 24)| ≤ θ ^ 4 / 700 ∧
+    |(θ - Real.sin θ) / θ ^ 3 - (1 / 6 - θ ^ 2 / 120)| ≤ θ ^ 4 / 5000 ∧
+    |(Real.sin θ / θ ^ 3 + 2 * Real.cos θ / θ ^ 4 - 2 / θ ^ 4) - (-1 / 12)| ≤ θ ^ 2 / 170 ∧
+    |(-Real.cos θ / θ ^ 4 - 2 / θ ^ 4 + 3 * Real.sin θ / θ ^ 5) - (-1 / 60)| ≤ θ ^ 2 / 1000 :=
+  ⟨C05Taylor.A_taylor θ h0 h1, C05Taylor.B_taylor θ h0 h1, C05Taylor.dA_taylor θ h0 h1,
+    C05Taylor.dB_taylor θ h0 h1⟩
+
+/-- non-vacuity: `a = (0, 0, 1e-5)` is in the series branch with `a_2 ≠ 0` -/
+example : (0:ℝ) < sqNorm (mk3 (0:ℝ) 0 (1 / 100000)) ∧ sqNorm (mk3 (0:ℝ) 0 (1 / 100000)) < Scalar.eps2 ∧
+    (mk3 (0:ℝ) 0 (1 / 100000)) 2 ≠ 0 := by
+  have h : sqNorm (mk3 (0:ℝ) 0 (1 / 100000)) = 1 / 10000000000 := by
+    simp [C04Alg.sqNorm3, mk3]; norm_num
+  rw [h, C04SO3.eps2_real]
+  refine ⟨by norm_num, by norm_num, ?_⟩
+  show (1 / 100000 : ℝ) ≠ 0
+  norm_num
 
 /-! ### every Bundle composition -/
 
